@@ -134,7 +134,12 @@ def run(rep):
         pol = opts.get("strip", "none")
         keep = c07.keep_fn(pol, safe)
         outnames = [(n_, d_) for n_, d_ in chunks if n_ not in c07.CRITICAL]
-        if m["icc"] is not None and keep(b"iCCP") and not any(n_ in (b"iCCP", b"sRGB") for n_, d_ in outnames):
+        octok = pg.parse_img_token(otok)
+        gray_moved = (octok[2] in (0, 4)) != (ct in (0, 4))
+        # (a recognised sRGB profile may be replaced by an sRGB chunk when stripping is enabled, and a move between grayscale and
+        # colour - allowed after such a replacement - drops every colour-space chunk: C14)
+        legit_move = gray_moved and pol != "none"
+        if m["icc"] is not None and keep(b"iCCP") and not legit_move and not any(n_ in (b"iCCP", b"sRGB") for n_, d_ in outnames):
             rep.violation("C11:attached-profile-lost", f"the attached ICC profile ({len(m['icc'])} bytes) is kept by policy {pol} but the file carries neither iCCP nor sRGB",
                           {"cases": [m["cmd"]]})
         for n_, d_ in outnames:
